@@ -254,7 +254,7 @@ pub fn run(args: &Args) {
         judge_point(&mut rep, &pt);
     }
     // full axis sweeps at anchors
-    for case in 0..args.budget(12, 300) {
+    for case in 0..args.u64("sweeps", if args.thorough() { 300 } else { 12 }) {
         let mut rng = Rng::for_case(seed, 2501, case);
         let anchor = gen_pt(&mut rng);
         for q in 1..=255 {
@@ -265,7 +265,7 @@ pub fn run(args: &Args) {
         }
         rep.count("axis_sweeps");
     }
-    for case in 0..args.budget(600, 20000) {
+    for case in 0..args.u64("vcases", if args.thorough() { 20000 } else { 600 }) {
         let mut rng = Rng::for_case(seed, 2502, case);
         match case % 9 {
             0 => validate_case::<f64m::BaseElement, Blake3_256<f64m::BaseElement>>(&mut rep, &mut rng, "Blake3_256/f64", 128),
